@@ -13,6 +13,7 @@ import (
 
 var rules = []*Rule{
 	{ID: "R1", Title: "MUST-FSYNC: durable before acknowledged", Props: []string{"C06", "C05", "C11", "C17"}, Run: ruleR1},
+	{ID: "R2", Title: "FS-ORDER: multi-step file protocols keep a recoverable order", Props: []string{"C05", "C11", "C02", "C01", "C17"}, Run: ruleR2},
 	{ID: "R3", Title: "LOCKSET: every shared mutable field has a common guard", Props: []string{"C08"}, Run: ruleR3},
 	{ID: "R6", Title: "SENTINEL-IDENTITY: compared sentinels arrive unwrapped and alive", Props: []string{"C03", "C04", "C09", "C10", "C12"}, Run: ruleR6},
 	{ID: "R7", Title: "TAXONOMY and GUARDS", Props: []string{"C04", "C03", "C07", "C09", "C10", "C11", "C12", "C14", "C19"}, Run: ruleR7},
